@@ -270,6 +270,7 @@ structure Cpl (sub : Nat) (ci : Cipher) (size : Nat) (s : Sys) (ch : Chan) : Pro
   netgood : ∀ p ∈ s.net, p.substreamId = sub ∧ hasReliable p.flags = true
   sent : s.accepted = ch.s.sent
   opn : ch.s.closing = false
+  idle : ch.s.pending = []
   bwf : SubWF s.b sub
   bwin : ∃ w, s.b.windows[sub]? = some w ∧ GoodWin sub w ∧ w.map wireOf = ch.r.win
   rrel : RRel s.b sub ch.r.core
@@ -323,11 +324,11 @@ theorem cpl_step (env : Env) (hcomp : ∀ b, env.compress b = b) (hdec : ∀ b, 
                       encPos := ch.s.encPos + wiresLen (wiresOf ci ch.s.nextId ch.s.encPos (split size data)),
                       log := ch.s.log ++ wiresOf ci ch.s.nextId ch.s.encPos (split size data),
                       sent := if data.isEmpty then ch.s.sent else ch.s.sent ++ [data] } := by
-        simp [Sender.send, h.opn]
+        simp [Sender.send, h.opn, h.idle]
       simp only [stepOpt, Chan.step, Sys.step]
       rw [hsend]
       have hacc : (s.a.send env now data sub).err.isNone = true := hfine.1
-      refine ⟨?_, ?_, ?_, ?_, ?_, ?_, h.opn, h.bwf, h.bwin, h.rrel, h.bcipher, h.nrel⟩
+      refine ⟨?_, ?_, ?_, ?_, ?_, ?_, h.opn, h.idle, h.bwf, h.bwin, h.rrel, h.bcipher, h.nrel⟩
       · rw [hfr.1]; exact h.size
       · simp only [wiresOf_length]; exact hr.2
       · -- the cipher (key, on/off) of the substream is what it was
@@ -365,7 +366,7 @@ theorem cpl_step (env : Env) (hcomp : ∀ b, env.compress b = b) (hdec : ∀ b, 
           have hr : ch.r = ⟨w.map wireOf, ch.r.nrel, ch.r.core⟩ := by rw [hwm]
           rw [h.bcipher] at harr hrr hci'
           rw [← hr] at harr hrr
-          refine ⟨h.size, h.srel, h.acipher, h.log, h.netgood, h.sent, h.opn, hwf', ⟨w', hw', hgw', ?_⟩, hrr, hci', ?_⟩
+          refine ⟨h.size, h.srel, h.acipher, h.log, h.netgood, h.sent, h.opn, h.idle, hwf', ⟨w', hw', hgw', ?_⟩, hrr, hci', ?_⟩
           · rw [harr]
           · show s.nrel + _ = (Receiver.arrive ci ch.r (wireOf p)).nrel
             rw [harr, h.nrel]
@@ -438,13 +439,7 @@ theorem sys_refines (env : Env) (hcomp : ∀ b, env.compress b = b) (hdec : ∀ 
     exact ⟨hg2, hr2⟩
 
 theorem out_prefix_of_inv (ci : Cipher) (start : Nat) (ch : Chan) (hS : SndInv ci start ch.s) (hR : RcvInv ci start ch) :
-    ch.r.core.reasm.out <+: ch.s.sent := by
-  have hlog : ch.s.log = ch.s.log.take ch.r.nrel ++ ch.s.log.drop ch.r.nrel := (List.take_append_drop _ _).symm
-  have h1 := hS.cons
-  rw [hlog, consume_append, ← hR.core] at h1
-  have h2 := out_prefix ci (ch.s.log.drop ch.r.nrel) ch.r.core
-  rw [h1] at h2
-  exact h2
+    ch.r.core.reasm.out <+: ch.s.sent := delivered_prefix_sent ci start ch hS hR
 
 /-- what the receiving application can read, in a coupled state -/
 theorem good_safe {sub : Nat} {ci : Cipher} {size start : Nat} {s : Sys} {ch : Chan} (h : Good sub ci size start s ch) :
@@ -457,7 +452,7 @@ theorem good_complete {sub : Nat} {ci : Cipher} {size start : Nat} {s : Sys} {ch
     (s.b.queues[sub]?.getD []) = s.accepted ∧ (s.b.eof = false → (s.b.fragBufs[sub]?.getD []) = []) := by
   have hn : ch.r.nrel = ch.s.log.length := by rw [← h.cpl.nrel, hall, ← h.cpl.log, List.length_map]
   have hc := h.rcv.core
-  rw [hn, List.take_length, h.snd.cons] at hc
+  rw [hn, List.take_length, sndInv_cons h.snd h.cpl.idle (Or.inl h.cpl.opn)] at hc
   refine ⟨?_, fun hl => ?_⟩
   · rw [← h.cpl.rrel.out, h.cpl.sent, hc]
   · rw [← (h.cpl.rrel.live hl).1, hc]
@@ -496,6 +491,7 @@ theorem fresh_good (env : Env) (sub : Nat) (hsub : sub ≤ env.s.maxSubstreamId)
       netgood := fun p hp => by cases hp
       sent := rfl
       opn := rfl
+      idle := rfl
       bwf := ⟨by simp [Sys.fresh, b, Conn.new, hn], by simp [Sys.fresh, b, Conn.new, hn], by simp [Sys.fresh, b, Conn.new, hn]⟩
       bwin := ⟨_, replicate_get _ _ _ hn, (fun kq hkq => by cases hkq), rfl⟩
       rrel := ⟨rfl, hq.symm, fun _ => ⟨hf.symm, fun _ => ⟨_, replicate_get _ _ _ hn, rfl⟩⟩⟩
